@@ -18,7 +18,7 @@ TABLE_TYPES = ["OTU table", "Pathway table", "Function table",
 
 ID_CLASSES = ['ascii', 'one', 'long', 'punct', 'space', 'slash', 'numeric',
               'natsort', 'latin1', 'cjk', 'astral', 'prefix', 'case',
-              'reserved', 'mixed']
+              'reserved', 'decimal', 'mixed']
 # classes safe for the classic TSV format (no tab/newline/#-start/edge blank)
 VALUE_CLASSES = ['count', 'bigcount', 'dyadic', 'frac', 'neg', 'tiny',
                  'manydigits', 'huge', 'subnormal', 'const', 'mixed']
@@ -114,6 +114,16 @@ def gen_ids(r, n, cls, prefix):
         r.shuffle(pool)
         return _uniq(r, n, lambda i: pool[i] if i < len(pool)
                      else prefix + str(r.randrange(10 ** 6)))
+    if cls == 'decimal':
+        # one prefix followed by numbers with fractional parts of different
+        # lengths (natural order = order of the numbers)
+        pool = ['0.125', '0.13', '7.250', '7.26', '1.10', '1.9', '12.50',
+                '12.6', '3', '10', '2.05', '2.5', '0.5', '0.05', '100.001',
+                '100.01', '9.99', '9.9', '1.25', '1.3']
+        r.shuffle(pool)
+        pre = prefix.lower() + r.choice(['', 'd', 'run'])
+        return _uniq(r, n, lambda i: pre + (pool[i] if i < len(pool)
+                                            else str(r.randrange(10 ** 6))))
     if cls == 'latin1':
         return _uniq(r, n, lambda i: prefix + ''.join(
             r.choice(_LATIN) for _ in range(r.randint(1, 4))) + str(i))
@@ -436,7 +446,8 @@ LAYOUTS = ['as-built', 'touch-sample', 'touch-obs', 'touch-both',
            'sort-unsort-samp', 'sort-unsort-obs', 'csr-stored-zeros',
            'csc-stored-zeros', 'csr-unsorted', 'transposed-twice',
            'filtered-keep-all', 'after-nnz', 'coo-input', 'deepcopied',
-           'pickled', 'narrow-dtype-input', 'after-queries']
+           'pickled', 'narrow-dtype-input', 'after-queries',
+           'csr-duplicate-entries', 'csc-duplicate-entries']
 
 
 def layout_state(t):
@@ -470,13 +481,64 @@ def apply_layout(biom, spec, recipe, r):
                 vals.append(0.0)
         coo = sp.coo_matrix((vals, (rows, cols)), shape=D.shape)
         mat = coo.tocsr() if recipe != 'csc-stored-zeros' else coo.tocsc()
-        if recipe == 'csr-unsorted' and mat.nnz > 1:
+
+        def unsort(mat):
             # reverse the order of the entries within each row
             for i in range(n):
                 s, e = mat.indptr[i], mat.indptr[i + 1]
                 mat.indices[s:e] = mat.indices[s:e][::-1].copy()
                 mat.data[s:e] = mat.data[s:e][::-1].copy()
             mat.has_sorted_indices = False
+        if recipe == 'csr-unsorted' and mat.nnz > 1:
+            unsort(mat)
+        t = biom.Table(mat, list(spec.obs_ids), list(spec.samp_ids),
+                       copy.deepcopy(spec.obs_md),
+                       copy.deepcopy(spec.samp_md), type=spec.type,
+                       table_id=spec.table_id)
+        if recipe == 'csr-unsorted' and t.matrix_data.nnz > 1 and \
+                t.matrix_data.getformat() == 'csr' and \
+                t.matrix_data.has_sorted_indices:
+            # the constructor may put its copy in order; the public
+            # matrix_data handle still lets a caller (or scipy, after some
+            # operations) leave the entries of a row in any order
+            unsort(t.matrix_data)
+        return t
+    if recipe in ('csr-duplicate-entries', 'csc-duplicate-entries'):
+        # scipy lets a compressed matrix store one coordinate several times;
+        # the cell is the sum (here v = 2 + (v - 2), and a 3 + -3 on a cell
+        # that is zero)
+        D = spec.D
+        rows, cols, vals = [], [], []
+        for i, j in zip(*np.nonzero(D)):
+            v = D[i, j]
+            part = 2.0 if np.isfinite(v) and abs(v) < 2 ** 50 and \
+                (v - 2.0) + 2.0 == v and r.random() < .5 else None
+            if part is None:
+                rows.append(i), cols.append(j), vals.append(v)
+            else:
+                rows += [i, i]
+                cols += [j, j]
+                vals += [part, v - part]
+        zr, zc = np.nonzero(D == 0)
+        for i, j in list(zip(zr, zc))[:2]:
+            rows += [i, i]
+            cols += [j, j]
+            vals += [3.0, -3.0]
+        rows = np.array(rows, dtype=np.int32)
+        cols = np.array(cols, dtype=np.int32)
+        vals = np.array(vals, dtype=float)
+        if recipe.startswith('csr'):
+            order = np.argsort(rows, kind='stable')
+            indptr = np.concatenate([[0], np.cumsum(np.bincount(
+                rows, minlength=n))]).astype(np.int32)
+            mat = sp.csr_matrix((vals[order], cols[order], indptr),
+                                shape=D.shape)
+        else:
+            order = np.argsort(cols, kind='stable')
+            indptr = np.concatenate([[0], np.cumsum(np.bincount(
+                cols, minlength=m))]).astype(np.int32)
+            mat = sp.csc_matrix((vals[order], rows[order], indptr),
+                                shape=D.shape)
         return biom.Table(mat, list(spec.obs_ids), list(spec.samp_ids),
                           copy.deepcopy(spec.obs_md),
                           copy.deepcopy(spec.samp_md), type=spec.type,
